@@ -7,15 +7,17 @@ from decaylib import F, Gen, U53, ancestors_sum, is_finite, within
 from oracle import DatasetView, LeanOracle, amaku_solution, eval_adaptive
 
 NEEDS_DATASET = True
-TARGETS = ["RdVerif.Props.C01", "RdVerif.Props.C04", "RdVerif.Props.C01Oracle", "RdVerif.Props.C04Error"]
-THEOREMS = ["RdVerif.C01.C01_exact", "RdVerif.C01.C01_closed_form", "RdVerif.C01.C01_stable", "RdVerif.C01.C01_oracle_factor", "RdVerif.C01.C01_oracle_sound", "RdVerif.C01.C01_oracle_cached", "RdVerif.C01.C01_ln2_certified", "RdVerif.C04.float_data_contribution", "RdVerif.C04.exact_inverses", "RdVerif.C04.exact_diagonalises", "RdVerif.C04.pattern_is_ancestors", "RdVerif.C04.float_aggregate_bound"]
+TARGETS = ["RdVerif.Props.C01", "RdVerif.Props.C04", "RdVerif.Props.C01Oracle", "RdVerif.Props.C04Error", "RdVerif.Props.C01Set"]
+THEOREMS = ["RdVerif.C01.C01_exact", "RdVerif.C01.C01_closed_form", "RdVerif.C01.C01_stable", "RdVerif.C01.C01_oracle_factor", "RdVerif.C01.C01_oracle_sound", "RdVerif.C01.C01_oracle_cached", "RdVerif.C01.C01_ln2_certified", "RdVerif.C01.C01_nuclide_set", "RdVerif.C04.float_data_contribution", "RdVerif.C04.exact_inverses", "RdVerif.C04.exact_diagonalises", "RdVerif.C04.pattern_is_ancestors", "RdVerif.C04.float_aggregate_bound"]
 PARTIAL = {
     "C01_error_bound_partial": "the rounding part of the 1e-11 forward-error bound of the double-precision evaluation is not a Lean "
                                "theorem: it is checked for every generated input against the oracle, which is PROVED to enclose the "
                                "exact solution (C01_oracle_sound); the data part of the bound IS a theorem (float_data_contribution: "
                                "<= 5e-12 of the initial atoms, all t >= 0, all N(0) >= 0)",
-    "C01_nuclide_set_partial": "nuclide set = descendants is checked per input against the model's decayIndices (float-C pattern, "
-                               "kernel-checked equal to the ancestor pattern) and an independent graph closure",
+    "C01_nuclide_set (synthetic datasets)": "for the shipped dataset 'index set written out = inputs and their closure under the "
+                               "progeny lists' is a theorem (C01_nuclide_set); that the real code writes out that index set is "
+                               "compared per input (and for every single-nuclide inventory) with the model's decayIndices and an "
+                               "independent graph closure; sub-datasets built through the public constructors are compared per input",
 }
 ASSUMPTIONS = [
     "NumPy/SciPy perform IEEE-754 double arithmetic (np.exp within 1 ulp; sparse products in some order)",
@@ -176,8 +178,81 @@ def correspondence(rep, ctx, ncases=None, oracle_kind="lean"):
                 rep.violation("failing-input", f"Inventory({case[0]!r}, {case[1]!r}).decay({case[2]!r}, {case[3]!r}): " + "; ".join(msgs),
                               {"call": "decay", "contents": case[0], "unit": case[1], "t": case[2], "tu": case[3],
                                "how_to_replay": "./check C01 --replay <this file>"}, True)
+    bad += all_single_block(rep, ctx, gen)
+    bad += subset_block(rep, ctx, gen)
     rep.corr["input_distribution"].update(gen.dist)
     rep.notes["mismatches"] = bad
+
+
+def all_single_block(rep, ctx, gen):
+    """EVERY nuclide of the dataset as a one-nuclide inventory (the nuclide-set clause is exact, so it can be decided
+    for the whole finite family of single parents): keys of decay(t) = the nuclide and all its progeny, alphabetical;
+    at t = 0 the parent keeps its amount and every progeny stays 0, to within the bound"""
+    rd, view, r = ctx.rd, gen.view, gen.r
+    bad = 0
+    for i in range(view.n):
+        nm = view.names[i]
+        want = sorted(view.names[g] for g in view.descendants([i]))
+        t = 0.0 if (i + ctx.seed) % 2 == 0 or view.rate[i] == 0 else float(r.choice([0.01, 1.0, 20.0]) / view.rate[i])
+        try:
+            got = rd.Inventory({nm: 1.0e6}, "num").decay(t, "s").numbers()
+            msg = None
+            if list(got) != want:
+                missing = sorted(set(want) - set(got))
+                extra = sorted(set(got) - set(want))
+                msg = (f"nuclide set/order differs from the chain of {nm}: missing {missing[:4]}, unexpected {extra[:4]}"
+                       if missing or extra else "order differs")
+            elif t == 0.0 and (abs(got[nm] - 1.0e6) > 1e-5 or any(abs(v) > 1e-5 for k, v in got.items() if k != nm)):
+                # (C * I * C^-1 * N0 in doubles is not bit-exactly N0: the stated bound is 1e-11 of the parent's atoms)
+                msg = f"amounts change at t = 0 by more than 1e-11 of the parent's atoms: {dict(list(got.items())[:4])}"
+        except Exception as e:  # noqa: BLE001
+            msg = f"raised {type(e).__name__}: {e}"
+        gen._count("single-parent-all")
+        rep.case(("all-single", nm, t), sample={"single_parent": nm, "t_s": t, "n_out": len(want)} if i % 500 == 0 else None)
+        if msg:
+            bad += 1
+            if bad <= 3:
+                rep.violation("failing-input", f"Inventory({{{nm!r}: 1e6}}, 'num').decay({t!r}, 's'): {msg}",
+                              {"call": "decay", "contents": {nm: 1.0e6}, "unit": "num", "t": t, "tu": "s"}, True)
+    return bad
+
+
+def subset_block(rep, ctx, gen):
+    """non-default datasets built through the public constructors: descendant-closed sub-chains of the shipped dataset,
+    re-indexed; every decay on them must agree with the same decay on the full dataset (which the oracle covers)"""
+    from oracle import subset_dataset
+    rd, view, r = ctx.rd, gen.view, gen.r
+    bad = 0
+    for k in range(40 if ctx.tier == "thorough" else 8):
+        roots = [gen.nuclide() for _ in range(r.choice([1, 2, 3]))]
+        try:
+            ds, names = subset_dataset(rd, view, roots, name=f"verif_subset_{k}")
+        except Exception as e:  # noqa: BLE001
+            rep.violation("failing-input", f"building a sub-dataset of {[view.names[g] for g in roots]} through the public "
+                          f"constructors raised {type(e).__name__}: {e}", {"roots": [view.names[g] for g in roots]}, True)
+            bad += 1
+            continue
+        for _ in range(6):
+            picks = r.sample(names, min(len(names), r.choice([1, 2, 3])))
+            contents = {nm: 10.0 ** r.uniform(-5, 20) for nm in picks}
+            t, tu = gen.time_for([view.index[nm] for nm in picks])
+            desc = f"Inventory({contents!r}, 'num', decay_data=<sub-dataset of {[view.names[g] for g in roots]}>).decay({t!r}, {tu!r})"
+            rep.case(("subset", k, repr(contents), t, tu), sample={"subset_roots": [view.names[g] for g in roots], "inventory": contents, "t": t, "tu": tu} if k == 0 else None)
+            gen._count("sub-dataset")
+            try:
+                a = rd.Inventory(dict(contents), "num", True, ds).decay(t, tu)
+                b = rd.Inventory(dict(contents), "num").decay(t, tu)
+                if a.decay_data is not ds:
+                    raise AssertionError("the decayed inventory is bound to another dataset")
+                an, bn = a.numbers(), b.numbers()
+                tot = sum(abs(F(v)) for v in contents.values())
+                if list(an) != list(bn) or any(abs(F(an[x]) - F(bn[x])) > TOL * tot for x in an):
+                    raise AssertionError(f"{dict(list(an.items())[:3])} vs on the full dataset {dict(list(bn.items())[:3])}")
+            except Exception as e:  # noqa: BLE001
+                bad += 1
+                rep.violation("failing-input", f"{desc}: {type(e).__name__}: {e}", {"call": "subset-decay", "roots": [view.names[g] for g in roots]}, True)
+                break
+    return bad
 
 
 def search(rep, ctx) -> bool:
